@@ -14,7 +14,7 @@ the harness under /tmp/audit (removed afterwards), so /repo and /verif/evidence 
 never touched and work on /verif can continue; without it the patch is applied to
 /repo itself (the way a seeded change is confirmed).
 
-usage: tools/audit.py [--scratch] [--only <substr>] [--checks C01,C05] [--tier quick|thorough] [--no-baseline]
+usage: tools/audit.py [--scratch] [--target-only] [--only <substr>] [--checks C01,C05] [--tier quick|thorough] [--no-baseline]
 """
 import glob, json, os, re, subprocess, sys, time
 
@@ -41,6 +41,7 @@ def main():
     tier = "quick"
     baseline = True
     scratch = False
+    target_only = False
     i = 0
     while i < len(args):
         if args[i] == "--only":
@@ -53,6 +54,8 @@ def main():
             baseline = False; i += 1
         elif args[i] == "--scratch":
             scratch = True; i += 1
+        elif args[i] == "--target-only":
+            target_only = True; i += 1
         else:
             print(__doc__); sys.exit(2)
     manifest = json.load(open(f"{VERIF}/MANIFEST.json"))
@@ -84,7 +87,7 @@ def main():
     report_path = f"{VERIF}/evidence/mutation_audit.json"
     scratch_root = os.path.dirname(REPO) if scratch else None
     report = {}
-    if os.path.exists(report_path) and (only or checks):
+    if os.path.exists(report_path) and (only or checks or target_only):
         try:
             report = json.load(open(report_path)).get("patches", {})
         except Exception:
@@ -108,7 +111,7 @@ def main():
                 report[name] = {"error": "patch does not apply", "target": target}
                 continue
             entry = {"target": target, "results": {}, "detected_by": []}
-            if name in report and isinstance(report[name].get("results"), dict) and (only or checks):
+            if name in report and isinstance(report[name].get("results"), dict) and (only or checks or target_only):
                 # partial re-run: keep earlier results of checks not re-run now
                 entry["results"] = dict(report[name]["results"])
                 for k in ("baseline", "baseline_ok"):
@@ -124,6 +127,8 @@ def main():
                     else:
                         entry["baseline_ok"] = True
                 run = checks or all_checks
+                if target_only and target:
+                    run = [target]
                 for c in run:
                     t0 = time.time()
                     rc, out = sh(run_cmd.format(c=c, tier=tier), cwd=run_cwd, timeout=7200)
